@@ -3,7 +3,7 @@ system embedded in a JSON document, merged with itself / with an empty type syst
 which some types are declared below a more general ancestor (so that the merge has to re-parent them).  Every derivation
 must yield the same declared tree and the same effective features as the original (C10, C11: "after XML loading, JSON loading
 and merging")."""
-KINDS = ["xml", "json", "merge-self", "merge-empty", "merge-reparent"]
+KINDS = ["xml", "json", "merge-self", "merge-empty", "merge-reparent", "merge-extend"]
 
 
 def derive(rng, sb, ts, sh, kind):
@@ -42,6 +42,16 @@ def derive(rng, sb, ts, sh, kind):
                 flattened.add(n)
             sb.create_type(flat, n, sup)
         sb.ops.append({"op": "ts.merge", "inputs": [flat, ts]})
+        sb.n_ts += 1
+        return sb.n_ts - 1
+    if kind == "merge-extend":
+        # an earlier input declares the same types without features: the features of `ts` are then merged into types that
+        # already exist in the result (the branch that must copy the feature objects of its input)
+        user = [n for n in sh.order if n not in sh.K["predefined"] and n != "uima.tcas.DocumentAnnotation"]
+        base = sb.ts_new()
+        for n in user:
+            sb.create_type(base, n, sh.parent[n])
+        sb.ops.append({"op": "ts.merge", "inputs": [base, ts]})
         sb.n_ts += 1
         return sb.n_ts - 1
     raise ValueError(kind)
